@@ -62,6 +62,14 @@ impl<K: Clone + PartialEq + Eq + Hash + std::fmt::Debug + std::cmp::PartialOrd, 
         Arc::clone(entry)
     }
 
+    /// Drop one pending entry which can't be populated, so that it is neither
+    /// committed to rmap by someone else nor taken as populated later
+    pub(crate) fn remove_from_wmap(&self, key: &K) {
+        let mut w = self.wmap.lock().unwrap();
+
+        w.remove(key);
+    }
+
     /// Flush key/value pairs from wmap to rmap
     pub(crate) fn commit_wmap(&self) -> Option<Vec<(K, AsyncLruCacheEntry<V>)>> {
         let mut w = self.wmap.lock().unwrap();
